@@ -7,6 +7,7 @@ import Driver.Persist
 import Driver.QParser
 import Driver.Query
 import Driver.Reads
+import Driver.SetOps
 import Driver.Widcode
 open Driver
 
@@ -19,6 +20,8 @@ def sessions : List (String × Sess) := [
   ("qparser", QParserS.sess),
   ("query", QueryS.sess),
   ("reads", ReadsS.sess),
+  ("setops", SetOpsS.sess),
+  ("setopsnbest", SetOpsS.sessNBest),
   ("widcode", WidcodeS.sess)
 ]
 
